@@ -161,7 +161,8 @@ class Doc(object):
         if props.get("display", "inline").strip().lower() == "none":
             return
         at = el.attrib
-        t_own = parse_transform(at.get("transform"))
+        # the transform may come from the attribute, from a style rule or from the inline style (the latter two win)
+        t_own = parse_transform(own.get("transform", at.get("transform")))
         if tag == "svg":
             if first:
                 cw = length(str(self.caller_w), self.ppi, None) if self.caller_w is not None else None
